@@ -84,13 +84,13 @@ func init() {
 		}
 		keys, groups := vpGroup(env.cases, func(c *vpCase) string {
 			in := c.In
-			return fmt.Sprint(in["secure"], in["httpOnly"], in["sameSite"], in["path"], vpJSON(in["domains"]), in["store"], in["nameLen"], in["via"] == "xfh")
+			return fmt.Sprint(in["secure"], in["httpOnly"], in["sameSite"], in["path"], vpJSON(in["domains"]), in["store"], in["nameLen"], in["via"] == "xfh", in["csrf"])
 		})
 		vpRunGroups(keys, groups, env.seed, func(rng *mrand.Rand, key string, cs []*vpCase) {
 			in0 := cs[0].In
 			sec, ho := vpB(in0, "secure"), vpB(in0, "httpOnly")
 			cfg := &vpCfg{Store: vpS(in0, "store"), CookieSecure: &sec, CookieHTTPOnly: &ho, CookieSameSite: vpS(in0, "sameSite"),
-				CookiePath: vpS(in0, "path"), ReverseProxy: vpS(in0, "via") == "xfh", Refresh: 3600}
+				CookiePath: vpS(in0, "path"), ReverseProxy: vpS(in0, "via") == "xfh", Refresh: 3600, CSRFPerRequest: vpS(in0, "csrf") == "perreq"}
 			if dl, ok := in0["domains"].([]interface{}); ok {
 				for _, d := range dl {
 					cfg.CookieDomains = append(cfg.CookieDomains, voc.text(vpSeq(d)))
@@ -167,6 +167,10 @@ func init() {
 					if err != nil || r1.Status != 302 {
 						env.emit(vpOut{ID: c.ID, Err: fmt.Sprintf("start: %d %v", r1.Status, err)})
 						return
+					}
+					if vpS(in, "csrf") == "perreq" {
+						// the CSRF cookie of an abandoned earlier login, no longer valid, is still in the jar
+						jar.applyCookie(&http.Cookie{Name: w.name + "_0a1b2c3d_csrf", Value: "Z2FyYmxlZA==|1600000000|c3RhbGU=", Path: path})
 					}
 					r2 := w.do(mk(w.prefix()+"/callback?code="+code+"&state="+strings.ReplaceAll(state, "/", "%2F"), jar))
 					jar.applyAll(r2)
